@@ -30,11 +30,13 @@ def gen(tier, rng):
         for t in range(rng.choice([0, 1, 1, 2, 3, 4])):
             tabs.append([rng.randrange(nd), rng.choice([1, 2, -1, 3, Fr(1, 2)]), rng.randrange(0, 9)])
         tabs = [[a, [Fr(s).numerator, Fr(s).denominator], i] for a, s, i in tabs]
-        post = rng.choice(["plain", "plain", "slice", "rebin", "intslice"] if nd >= 2 else ["plain", "plain", "slice", "rebin"])
+        post = rng.choice(["plain", "plain", "slice", "rebin", "intslice", "intslice_rebin"] if nd >= 2 else ["plain", "plain", "slice", "rebin"])
         arg = None
-        if post == "intslice":       # an integer through one axis (often one of two coupled ones): world != pixel count
+        if post in ("intslice", "intslice_rebin"):       # an integer through one axis (often one of two coupled ones): world != pixel count
             a = rng.randrange(nd)
             arg = [a, rng.randrange(shape[a])]
+            if post == "intslice_rebin":                 # ... and the result is rebinned
+                arg.append([rng.choice([d for d in range(1, s_ + 1) if s_ % d == 0]) for k_, s_ in enumerate(shape) if k_ != a])
         if post == "slice":
             arg = [rng.randrange(0, s // 2) for s in shape]
         elif post == "rebin":
@@ -43,12 +45,16 @@ def gen(tier, rng):
         # (ascending or descending); rebin of such a coordinate onto axes of different lengths is a known finding (C19)
         pair = None
         cand = [k for k in range(len(tabs) - 1) if tabs[k][0] != tabs[k + 1][0]]
-        if cand and post != "rebin" and rng.random() < 0.5:
+        if cand and post not in ("rebin", "intslice_rebin") and rng.random() < 0.5:
             pair = rng.choice(cand)
         seedk = rng.randrange(10 ** 6)
-        key = f"{shape}|{A}|{b}|{tabs}|{post}|{arg}|{pair}"
+        wcsec = None
+        if nd >= 2 and not tabs and post in ("plain", "slice", "rebin") and rng.random() < 0.6:
+            # extra coords given as a WCS of their own over all the cube's pixel axes; both WCSes know their (non-cubic) shape
+            wcsec = [list(map(int, r_)) for r_ in rand_unimodular(rng, nd)]      # (invertible, so that world values convert back)
+        key = f"{shape}|{A}|{b}|{tabs}|{post}|{arg}|{pair}|{wcsec}"
         cases.append({"key": key, "stratum": f"{post}-{len(tabs)}tables", "shape": shape, "A": A, "b": b, "tabs": tabs,
-                      "post": post, "arg": arg, "rs": seedk, "pair": pair, "nontrivial": bool(tabs),
+                      "post": post, "arg": arg, "rs": seedk, "pair": pair, "wcsec": wcsec, "nontrivial": bool(tabs) or bool(wcsec),
                       "show": {"shape": shape, "primary": [A, b], "extra_coords(axis,slope,intercept)": tabs, "then": [post, arg],
                                "tables_forming_one_two_axis_coordinate": None if pair is None else [pair, pair + 1]}})
     return cases
@@ -59,8 +65,20 @@ def build(case):
     from ndcube import NDCube
     shape = tuple(case["shape"])
     nd = len(shape)
-    wcs = make_probe(case["A"], case["b"], tw=list(range(nd)), tp=list(range(nd)))
-    cube = NDCube(np.zeros(shape), wcs=wcs)
+    if case.get("wcsec"):
+        from astropy.wcs.wcsapi import HighLevelWCSWrapper
+        from ndcube import ExtraCoords
+        from harness.impl import make_probe_rect
+        wcs = make_probe(case["A"], case["b"], shape=list(shape)[::-1], tw=list(range(nd)), tp=list(range(nd)))
+        cube = NDCube(np.zeros(shape), wcs=wcs)
+        ec = ExtraCoords(ndcube=cube)
+        ec.wcs = HighLevelWCSWrapper(make_probe(case["wcsec"], [500 * (k + 1) for k in range(nd)], shape=list(shape)[::-1],
+                                                tw=[300 + k for k in range(nd)], tp=list(range(nd))))
+        ec.mapping = tuple(range(nd))
+        cube._extra_coords = ec
+    else:
+        wcs = make_probe(case["A"], case["b"], tw=list(range(nd)), tp=list(range(nd)))
+        cube = NDCube(np.zeros(shape), wcs=wcs)
     tabs = list(enumerate(case["tabs"]))
     for k, (ax, slope, icpt) in tabs:
         if k == len(tabs) - 1 and len(tabs) >= 1:
@@ -88,9 +106,11 @@ def build(case):
         cube = cube[tuple(slice(a, None) for a in case["arg"])]
     elif case["post"] == "rebin":
         cube = cube.rebin(tuple(case["arg"]))
-    elif case["post"] == "intslice":
-        a, i = case["arg"]
+    elif case["post"] in ("intslice", "intslice_rebin"):
+        a, i = case["arg"][:2]
         cube = cube[tuple(i if k == a else slice(None) for k in range(nd))]
+        if case["post"] == "intslice_rebin":
+            cube = cube.rebin(tuple(case["arg"][2]))
     return cube
 
 
@@ -159,6 +179,8 @@ def run(case):
     shape = cube.data.shape
     if n != cube.data.ndim:
         why.append(f"combined wcs has {n} pixel axes for {cube.data.ndim} array axes")
+    if ll.array_shape is not None and tuple(int(x) for x in ll.array_shape) != tuple(shape):
+        why.append(f"combined wcs records the array shape {tuple(ll.array_shape)}, the cube's is {tuple(shape)}")
     # pixel positions on and between grid points (inside the array so that the tables have values)
     pins, p2ws = [], []
     arrs = [rng.randint(0, 4 * (shape[n - 1 - p] - 1) + 1, size=(5,)) / 4.0 for p in range(n)]
@@ -223,7 +245,7 @@ def run(case):
 
 def coq_case(case, res):
     o = res["out"]
-    if case["post"] == "intslice":      # world / pixel counts differ: decided by the direct oracle
+    if case["post"] in ("intslice", "intslice_rebin") or case.get("wcsec"):      # decided by the direct oracle
         return "mk (C14_corr.mk (C14_corr.WLin [] [] [] [] [] None None) [] [] (C14_corr.OOk 0%nat 0%nat [] [] [] None [] None None)) 0%nat (Some [])"
     e = _coq_expr(case)
     nd = len(case["shape"])
